@@ -73,6 +73,12 @@ func WithGlobalTx(ctx context.Context, gc *GtxConfig, business CallbackWithCtx) 
 			}
 		}
 
+		if deferErr != nil {
+			// the business panicked: the transaction has been asked to roll back,
+			// the caller must still learn that its callback did not complete
+			re = fmt.Errorf("business panic: %v", deferErr)
+		}
+
 		if re != nil || err != nil {
 			re = fmt.Errorf("first phase error: %v, second phase error: %v", re, err)
 		}
